@@ -28,7 +28,7 @@ use rs_matter::Matter;
 
 use crate::common::certw::{self, KeyPair};
 use crate::common::commdrv::{self, Device};
-use crate::common::imdrv::{Answer, Item};
+use crate::common::imdrv::{self, Answer, Item};
 use crate::common::kv::RecKv;
 use crate::common::nodes::{self, SessKind};
 use crate::common::rng::SeededRng;
@@ -174,6 +174,10 @@ struct World {
     /// C07 reference: fabrics (index, root, fabric id) that are gone by the rules of the protocol - rolled
     /// back (NOC added under a fail-safe that ended without CommissioningComplete) or removed
     pub must_be_gone: std::collections::BTreeSet<(u8, u64, u64)>,
+    /// C07: resumption id -> (fabric index, root, fabric id) of the records the harness planted
+    resumption_of: BTreeMap<Vec<u8>, (u8, u64, u64)>,
+    /// C07: fabric index -> (root, fabric id) of the fabric the administrator's subscription was made on
+    subscribed: BTreeMap<u8, (u64, u64)>,
     /// set by the answer judge: CommissioningComplete / RemoveFabric(g) succeeded in this step
     completed_now: bool,
     removed_now: Option<u8>,
@@ -208,7 +212,7 @@ impl World {
             roots.push((kp, spec, cert));
         }
         let dev = commdrv::boot(&mut exec, &net, 1, &kv, 1000, true);
-        let mut w = World { exec, net, kv, dev: Some(dev), admin, admin_task: None, answer: Rc::new(RefCell::new(None)), roots, next_root: 0, last_csr_key: None, model: Model::default(), committed: Config::default(), boots: 1, violations: Vec::new(), case_sessions: Vec::new(), memory_dirty: false, dirty_fabs: Default::default(), pase_gen: 0, pase_dev_id: 0, incarnation: BTreeMap::new(), must_be_gone: Default::default(), completed_now: false, removed_now: None, c07: false, c11: false, c11_crash_points_checked: 0 };
+        let mut w = World { exec, net, kv, dev: Some(dev), admin, admin_task: None, answer: Rc::new(RefCell::new(None)), roots, next_root: 0, last_csr_key: None, model: Model::default(), committed: Config::default(), boots: 1, violations: Vec::new(), case_sessions: Vec::new(), memory_dirty: false, dirty_fabs: Default::default(), pase_gen: 0, pase_dev_id: 0, incarnation: BTreeMap::new(), must_be_gone: Default::default(), resumption_of: BTreeMap::new(), subscribed: BTreeMap::new(), completed_now: false, removed_now: None, c07: false, c11: false, c11_crash_points_checked: 0 };
         w.exec.run()?;
         w.after_boot()?;
         w.committed = w.config();
@@ -234,6 +238,8 @@ impl World {
         self.admin.get().reset_transport().map_err(|e| format!("{:?}", e.code()))?;
         self.case_sessions.clear();
         self.incarnation.clear();
+        // (the planted resumption records were never flushed unless the device changed the cache itself; what
+        // survives a restart is judged against what was planted before it)
         if self.model.window_open {
             self.install_pase()?;
         }
@@ -274,9 +280,31 @@ impl World {
             nodes::install_session_fab(self.md(), SeededRng::new(60 + fab as u64 * 4 + extra as u64), fab, NODE_DEV + fab as u64, 0xC100 + extra as u64, l, l + 1000, addr_of(2 + extra as usize), &ka, &kb).map_err(|e| format!("{:?}", e.code()))?;
             lds.push(l);
         }
-        if let Some(f) = memory_config(self.md()).iter().find(|x| x.idx == fab) {
+        let ident = memory_config(self.md()).iter().find(|x| x.idx == fab).map(|f| (f.root, f.fabric_id));
+        if let Some((root, fabric_id)) = ident {
             for l in lds {
-                self.incarnation.insert(l, (fab, f.root, f.fabric_id));
+                self.incarnation.insert(l, (fab, root, fabric_id));
+            }
+        }
+        if self.c07 {
+            if let Some((root, fabric_id)) = ident {
+                // what else a controller leaves at the device: a session-resumption record (as a completed
+                // CASE handshake does) and a subscription (a real SubscribeRequest over the new session)
+                let rid: [u8; 16] = {
+                    let d = digest(&(root, fabric_id, self.next_root as u64, self.boots));
+                    let mut b = [0u8; 16];
+                    b[..8].copy_from_slice(&d.to_le_bytes());
+                    b[8] = fab;
+                    b
+                };
+                let rec = resumption_record(fab, NODE_ADMIN, &rid)?;
+                self.md().with_state(|s| s.resumption.insert_or_update(rec));
+                self.resumption_of.insert(rid.to_vec(), (fab, root, fabric_id));
+                let req = imdrv::subscribe_request_ev(0, 3000, &[imdrv::Path::new(Some(0), Some(0x28), Some(0))], &[], None, false);
+                let ans = self.request_kind(fab, 2, false, req)?;
+                if ans.error.is_none() && ans.status_response.is_none() {
+                    self.subscribed.insert(fab, (root, fabric_id));
+                }
             }
         }
         Ok(())
@@ -297,6 +325,12 @@ impl World {
 
     /// send one request over the given session (0 = PASE, n = CASE of fabric n) and wait for the answer
     fn request(&mut self, via: u8, write: bool, timed: bool, req: Vec<u8>) -> Result<Answer, String> {
+        self.request_kind(via, if write { 1 } else { 0 }, timed, req)
+    }
+
+    /// kind: 0 invoke, 1 write, 2 subscribe
+    fn request_kind(&mut self, via: u8, kind: u8, timed: bool, req: Vec<u8>) -> Result<Answer, String> {
+        let write = kind == 1;
         *self.answer.borrow_mut() = None;
         if let Some(t) = self.admin_task.take() {
             self.exec.cancel(t);
@@ -312,7 +346,9 @@ impl World {
                 let r = match ex {
                     Err(e) => Answer { error: Some(format!("initiate: {:?}", e.code())), ..Default::default() },
                     Ok(mut ex) => {
-                        if write {
+                        if kind == 2 {
+                            imdrv::do_subscribe(&mut ex, &req).await
+                        } else if write {
                             commdrv::write(&mut ex, &req).await
                         } else {
                             commdrv::invoke(&mut ex, &req, timed).await
@@ -859,6 +895,35 @@ impl World {
                 _ => {}
             }
         }
+        // session-resumption records and subscriptions: bound to an existing fabric, the one they were made for
+        let records: Vec<(u8, u64, Vec<u8>)> = self.md().with_state(|s| s.resumption.iter().map(|r| (r.fab_idx.get(), r.peer_nodeid, resumption_id_of(r))).collect());
+        for (fab, peer, rid) in records {
+            let current = fabrics.iter().find(|f| f.idx == fab);
+            let made_for = self.resumption_of.get(&rid);
+            let bad = match (current, made_for) {
+                (None, _) => Some("outlives-its-fabric"),
+                (Some(f), _) if self.must_be_gone.contains(&(f.idx, f.root, f.fabric_id)) => Some("of-a-fabric-that-was-rolled-back-or-removed-still-usable"),
+                (Some(f), Some((_, root, fid))) if f.root != *root || f.fabric_id != *fid => Some("of-a-removed-fabric-reaches-its-successor"),
+                _ => None,
+            };
+            if let Some(b) = bad {
+                self.violations.push((format!("C07:resumption-record-{}:after-{}", b, op_class(op)), format!("after {:?} the device holds a session-resumption record for peer {:#x} on fabric index {} (planted for {:?}); fabrics now {:?}", op, peer, fab, made_for, fabrics.iter().map(|f| (f.idx, f.fabric_id)).collect::<Vec<_>>())));
+            }
+        }
+        let subs: Vec<(u32, u8, u64)> = self.dev.as_ref().map(|d| d.im_state.get().verif_subscriptions().verif_ids().iter().cloned().collect()).unwrap_or_default();
+        for (id, fab, peer) in subs {
+            let current = fabrics.iter().find(|f| f.idx == fab);
+            let made_for = self.subscribed.get(&fab);
+            let bad = match (current, made_for) {
+                (None, _) => Some("outlives-its-fabric"),
+                (Some(f), _) if self.must_be_gone.contains(&(f.idx, f.root, f.fabric_id)) => Some("of-a-fabric-that-was-rolled-back-or-removed-still-alive"),
+                (Some(f), Some((root, fid))) if f.root != *root || f.fabric_id != *fid => Some("of-a-removed-fabric-reaches-its-successor"),
+                _ => None,
+            };
+            if let Some(b) = bad {
+                self.violations.push((format!("C07:subscription-{}:after-{}", b, op_class(op)), format!("after {:?} the device holds subscription {} of peer {:#x} on fabric index {} (made on {:?}); fabrics now {:?}", op, id, peer, fab, made_for, fabrics.iter().map(|f| (f.idx, f.fabric_id)).collect::<Vec<_>>())));
+            }
+        }
         // sessions of other fabrics are unaffected by a removal
         if let Op::RemoveFabricC(f, g) = op {
             if f != g && self.case_sessions.contains(&f) && fabrics.iter().any(|x| x.idx == f) && !self.case_alive(f) {
@@ -957,6 +1022,33 @@ impl World {
             }
         }
     }
+}
+
+/// A session-resumption record as a completed CASE handshake leaves it (built through its TLV form:
+/// the identifier types are private to the crate).
+fn resumption_record(fab: u8, peer: u64, rid: &[u8; 16]) -> Result<rs_matter::sc::case::ResumableSession, String> {
+    use rs_matter::tlv::{FromTLV, TLVElement, TLVTag, TLVWrite};
+    let mut buf = vec![0u8; 128];
+    let mut tw = rs_matter::utils::storage::WriteBuf::new(&mut buf);
+    let r: Result<(), rs_matter::error::Error> = (|| {
+        tw.start_struct(&TLVTag::Anonymous)?;
+        tw.u8(&TLVTag::Context(0), fab)?;
+        tw.u64(&TLVTag::Context(1), peer)?;
+        tw.start_array(&TLVTag::Context(2))?;
+        for _ in 0..3 {
+            tw.u32(&TLVTag::Anonymous, 0)?;
+        }
+        tw.end_container()?;
+        tw.str(&TLVTag::Context(3), rid)?;
+        tw.str(&TLVTag::Context(4), &[0x5e; 32])?;
+        tw.end_container()
+    })();
+    r.map_err(|e| format!("harness: resumption record TLV: {:?}", e.code()))?;
+    rs_matter::sc::case::ResumableSession::from_tlv(&TLVElement::new(tw.as_slice())).map_err(|e| format!("harness: resumption record does not decode: {:?}", e.code()))
+}
+
+fn resumption_id_of(r: &rs_matter::sc::case::ResumableSession) -> Vec<u8> {
+    (0..=255u8).map(|_| 0).take(0).collect::<Vec<u8>>().into_iter().chain(r.resumption_id.reference().access().iter().copied()).collect()
 }
 
 fn op_class(op: Op) -> String {
